@@ -446,33 +446,68 @@ TYPES = [
 TYPE_BY_NAME = {t.name: t for t in TYPES}
 
 _BUILT = False
+BUILD_FAILURES = []       # (type name, label, exception) - reported by the algebra worker of that type
 
 
-def build_all(acc=None):
-    """Build every alphabet (once per process; workers inherit through fork)."""
+def build_all():
+    """Build every alphabet (once per process; workers inherit through fork).  A value that cannot be built (the library
+    raised on a valid construction) is dropped from the alphabet and reported as a violation of its type."""
     global _BUILT
     if _BUILT:
         return
     for T in TYPES:
-        T.entries = T.alphabet_fn()
-        for e in T.entries:
-            e.value = e.build()
-        if T.cls is None:
+        try:
+            ents = T.alphabet_fn()
+        except Exception as x:  # noqa: BLE001
+            if exc_origin(x) == "harness":
+                raise
+            BUILD_FAILURES.append((T.name, "<alphabet>", x))
+            ents = []
+        T.entries = []
+        for e in ents:
+            try:
+                e.value = e.build()
+            except Exception as x:  # noqa: BLE001
+                if exc_origin(x) == "harness":
+                    raise
+                BUILD_FAILURES.append((T.name, e.label, x))
+                continue
+            T.entries.append(e)
+        if T.cls is None and T.entries:
             T.cls = type(T.entries[0].value)
-        for t in ("has_equals",):
-            pass
+        if T.cls is None:
+            from pyoda_time.time_zones._fixed_date_time_zone import _FixedDateTimeZone
+            T.cls = _FixedDateTimeZone
         T.has_equals = hasattr(T.cls, "equals")
         T.has_compare_to = hasattr(T.cls, "compare_to")
         T.static_minmax = T.ordered and all(hasattr(T.cls, n) for n in ("min", "max")) and not isinstance(inspect.getattr_static(T.cls, "min"), property)
     _BUILT = True
 
 
+_LONDON = []
+
+
+def london_or_none():
+    """The tzdb London zone, or None when the provider cannot load it (that failure belongs to the ZonedDateTime alphabet)."""
+    if not _LONDON:
+        try:
+            _LONDON.append(DateTimeZoneProviders.tzdb["Europe/London"])
+        except Exception as x:  # noqa: BLE001
+            if exc_origin(x) == "harness":
+                raise
+            _LONDON.append(None)
+    return _LONDON[0]
+
+
 def foreign_values():
     """Objects of unrelated types: primitives and one value of every pyoda type."""
     out = [("None", None), ("int 0", 0), ("int 1", 1), ("float", 1.5), ("str", "x"), ("object()", object()), ("tuple", (1,)),
-           ("CalendarSystem.iso", ISO), ("tzdb London", DateTimeZoneProviders.tzdb["Europe/London"]), ("IsoDayOfWeek.MONDAY", IsoDayOfWeek.MONDAY)]
+           ("CalendarSystem.iso", ISO), ("IsoDayOfWeek.MONDAY", IsoDayOfWeek.MONDAY)]
+    if london_or_none() is not None:
+        out.append(("tzdb London", london_or_none()))
     for T in TYPES:
-        out.append((T.name, T.entries[2].value))
+        if T.entries:
+            out.append((T.name, T.entries[min(2, len(T.entries) - 1)].value))
     return out
 
 
@@ -492,19 +527,37 @@ def _case(T, *entries):
     return {"type": T.name, "values": [e.label for e in entries], "keys": [list(e.key) for e in entries]}
 
 
-def _py_pair(T, a, b, expr, expect):
-    return None
+def _guarded(part, tname, fn, args):
+    """An exception escaping from library code at an unguarded point (e.g. while building argument pools) becomes a violation
+    of this shard instead of a harness fault; the rest of the shard is recorded as cut short."""
+    acc = Acc()
+    try:
+        return fn(args, acc)
+    except Exception as x:  # noqa: BLE001
+        if exc_origin(x) == "harness":
+            raise
+        acc.lib_exception("C12/%s/%s-aborted" % (tname, part), x, {"type": tname, "shard": repr(args)[:200]})
+        acc.cap("a %s shard stopped early on an unexpected library exception" % part)
+        return acc
 
 
 def algebra_worker(tname):
+    return _guarded("algebra", tname, _algebra_worker, tname)
+
+
+def _algebra_worker(tname, acc):
     build_all()
     T = TYPE_BY_NAME[tname]
-    acc = Acc()
     ents = T.entries
     n = len(ents)
     P = "C12/%s" % T.name
     acc.note("alphabet %s" % T.name, {"values": n, "distinct keys": len({e.key for e in ents}), "calendars": sorted({e.group for e in ents if e.group}),
                                       "ordered": T.ordered, "static min/max": T.static_minmax})
+    for tn, label, x in BUILD_FAILURES:
+        if tn == T.name:
+            acc.lib_exception("%s/build" % P, x, {"type": T.name, "values": [label]})
+    if not ents:
+        return acc
     # 0. the built values have the components asked for; hashing
     hashable = True
     for e in ents:
@@ -773,7 +826,6 @@ def _foreign(acc, T, P, e, fname, f):
 DUNDERS = ("__add__", "__radd__", "__sub__", "__rsub__", "__mul__", "__rmul__", "__truediv__", "__rtruediv__", "__floordiv__", "__mod__",
            "__neg__", "__pos__", "__abs__", "__eq__", "__ne__", "__lt__", "__le__", "__gt__", "__ge__", "__hash__", "__repr__", "__str__",
            "__format__", "__contains__", "__iter__", "__len__", "__and__", "__or__", "__bool__", "__getitem__", "__invert__")
-PYODA_VALUE_CLASSES = ()
 _ADDR = re.compile(r" object at 0x[0-9a-fA-F]+")
 
 
@@ -888,11 +940,14 @@ class Pools:
 
     def __init__(self, tier):
         build_all()
-        k = 2 if tier == "quick" else 3
+        k = 2 if tier == "quick" else 4
         self.k = k
         self.by = {}
         for T in TYPES:
             ents = T.entries
+            if not ents:
+                self.by[T.cls.__name__] = []
+                continue
             pick = [ents[0], ents[len(ents) // 2], ents[-1], ents[len(ents) // 3]][:k]
             self.by[T.cls.__name__] = [e.value for e in pick]
         self.by["_FixedDateTimeZone"] = self.by[TYPE_BY_NAME["FixedZone"].cls.__name__]
@@ -900,7 +955,7 @@ class Pools:
         self.by.update({
             "int": [1, -1, 0][:k], "float": [2, 0.5][:k], "bool": [True], "str": ["", "G"][:k], "str | None": [None, "G"][:k], "object": [None, 0],
             "None": [None], "Any": [None],
-            "CalendarSystem": [ISO, JUL, HS][:k], "DateTimeZone": [DateTimeZone.utc, DateTimeZoneProviders.tzdb["Europe/London"]],
+            "CalendarSystem": [ISO, JUL, HS][:k], "DateTimeZone": [DateTimeZone.utc] + ([london_or_none()] if london_or_none() is not None else []),
             "IsoDayOfWeek": [IsoDayOfWeek.MONDAY, IsoDayOfWeek.SUNDAY], "PeriodUnits": [PeriodUnits.DAYS, PeriodUnits.ALL_UNITS][:k],
             "Callable[[LocalDate], LocalDate]": [lambda d: d.plus_days(1), lambda d: d][:k],
             "Callable[[LocalTime], LocalTime]": [lambda t: t.plus_hours(1), lambda t: t][:k],
@@ -986,12 +1041,9 @@ def menu(cls, pools: Pools, tier, skipped):
             if name in DUNDERS and (p.annotation is p.empty or str(p.annotation).strip("'\"") == "object"):
                 pool = list(pools.by.get(cls.__name__) or []) + [None]
             if pool is None:
-                if False:
-                    pass
-                if pool is None:
-                    ok = False
-                    skipped.add("%s.%s (no argument pool for %r)" % (cls.__name__, name, p.annotation))
-                    break
+                ok = False
+                skipped.add("%s.%s (no argument pool for %r)" % (cls.__name__, name, p.annotation))
+                break
             own = any(part in own_names for part in _split_union(str(p.annotation).strip("'\"")))
             has_own = has_own or own
             plist.append((p.name, "kw" if p.kind == p.KEYWORD_ONLY else "pos", pool, own))
@@ -1057,7 +1109,6 @@ def _spread_product(pools_i, maxcombo):
     n = max(len(p) for p in pools_i)
     seen = set()
     for j in range(n):
-        t = tuple(range(len(pools_i)))
         c = tuple(p[j % len(p)] for p in pools_i)
         k = tuple(id(x) for x in c)
         if k not in seen:
@@ -1138,13 +1189,16 @@ class Baselines:
 
 
 def immut_worker(args):
+    return _guarded("immutability", args[1], _immut_worker, args)
+
+
+def _immut_worker(args, acc):
     tier, tname, idxs = args
     build_all()
     T = TYPE_BY_NAME[tname]
-    acc = Acc()
     pools = Pools(tier)
     skipped = set()
-    maxcombo = 2 if tier == "quick" else 4
+    maxcombo = 2 if tier == "quick" else 6
     P = "C12/%s/immutability" % T.name
     value_classes = {t.cls for t in TYPES}
     for idx in idxs:
@@ -1256,10 +1310,12 @@ def run(ctx):
         jobs = []
         for T in TYPES:
             n = len(T.entries)
+            if n == 0:
+                continue
             if tier == "quick":
-                idxs = sorted({0, n // 2, n - 1, (seed * 7 + 3) % n})
-                ctx.cap("quick tier: immutability sequences run on 3-4 operands per type (first, middle, last, one seed-chosen) with at most 2 "
-                        "argument combinations per member; thorough runs every alphabet value with up to 4")
+                idxs = sorted({0, n // 4, n // 2, (3 * n) // 4, n - 1, (seed * 7 + 3) % n})
+                ctx.cap("quick tier: immutability sequences run on 5-6 operands per type (quartile positions of the alphabet + one seed-chosen) with at most 2 "
+                        "argument combinations per member; thorough runs every alphabet value with up to 6")
             else:
                 idxs = list(range(n))
             for i in idxs:
